@@ -973,6 +973,12 @@ def cases(rng, tier):
              [("ࠀ", "퟿"), ("", "￿"), ("\U00010000", "~._-")]]
     for ps in fixed:
         yield "qs_enc " + enc_pairs(ps)
+    # very many pairs (the round trip has no size in its statement): 1000, 1001, 2500 pairs, repeated and distinct keys
+    for count in (1000, 1001, 2500):
+        yield "qs_enc " + enc_pairs([("k%d" % (i % 40), "v%d" % i) for i in range(count)])
+        yield "qs_enc " + enc_pairs([("k%d" % i, "") for i in range(count)])
+        yield "qs_parse 0 " + enc("&".join("a=%d" % i for i in range(count)))
+        yield "qs_parse 1 " + enc("&".join("a%d=1" % i for i in range(count)))
     # every pair list of length <= 3 over blank / plain / reserved keys and values (blank key with blank value included)
     alpha = [(k, v) for k in ("", "a", "b c") for v in ("", "1", "x&y=z")]
     for n in (1, 2, 3):
